@@ -106,3 +106,17 @@ Definition x_wf_package (p : package) : bool :=
         let 'Node k _ _ _ cs := n in
         negb (kind_eqb k KFuncDecl) && (fix go (l : list node) : bool := match l with [] => true | c :: r => nf c && go r end) cs)
      (n_children d)) (f_decls f)) (p_files p).
+
+(* the @ignore comments of a package that stand inside a declaration, and how many of them meet the boolean
+   hypotheses of the C07 scope theorems (evaluated by the harness on every serialised package) *)
+From GG Require Import Proofs.IgnoreProofs.
+Definition x_ignore_hyp (cfg : config) (p : package) : nat * nat :=
+  fold_left (fun acc f =>
+    fold_left (fun acc c =>
+      if is_ignore_comment kw_ignore (c_text c) && negb (c_pos c <? f_package f)%Z then
+        match find (fun d => (n_end d >? c_pos c)%Z) (f_decls f) with
+        | Some d => if (c_pos c <? n_pos d)%Z then acc
+                    else (S (fst acc), if after_sorted_b (c_pos c) d && parent_le_b d then S (snd acc) else snd acc)
+        | None => acc
+        end
+      else acc) (List.concat (f_comments f)) acc) (kept_files cfg p) (O, O).
